@@ -132,14 +132,31 @@ def g_nnz(tier):
   Rz = Run(first.kernel)
   fz = {a: f for f, a in first.binding.items()}.get("efc_nnz")
   obs.append(Rz.obligation("make_constraint#efc_nnz.zeroed_first", f"{fz}[tid0] == 0", meta={"goal": "the first kernel of make_constraint zeroes the efc_nnz allocator"}))
-  # guard of the flagging launch: exactly the sparse case (dense Jacobians have no nnz budget)
-  guard_ok = False
-  for n in ast.walk(mk.node):
-    if isinstance(n, ast.If) and ast.unparse(n.test) == "m.is_sparse":
-      if any(isinstance(c, ast.Call) and getattr(c, "lineno", -1) == s.lineno for c in ast.walk(n)):
-        guard_ok = True
-  top = any(isinstance(st, ast.If) and ast.unparse(st.test) == "m.is_sparse" and any(getattr(c, "lineno", -1) == s.lineno for c in ast.walk(st)) for st in mk.node.body)
-  obs.append(Result(oid="make_constraint#nnz_overflow.guard", status="discharged" if guard_ok and top else "violated", kind="host-order", func=mk.key, backend="host analysis", meta={"function": mk.key, "goal": "flagging launch is at the top level of make_constraint under `if m.is_sparse` only"}))
+  # every host path that launches a kernel allocating from efc_nnz also reaches the flagging launch:
+  # host-flow events of make_constraint (source order, early returns turned into negated conditions of
+  # everything after them); conds(builder launch) and m.is_sparse  =>  conds(flagging launch)
+  from wpv import hostflow
+
+  from .C37 import _atoms, _covers
+
+  ev = [e for e in hostflow.flow(mk.key) if e.kind == "launch"]
+  flag = [e for e in ev if e.kernel == s.kernel and e.lineno == s.lineno]
+  if len(flag) != 1:
+    obs.append(Result(oid="make_constraint#nnz_overflow.guard", status="violated", kind="host-order", func=mk.key, backend="host-flow analysis", meta={"function": mk.key, "goal": "the flagging launch is a unique event of make_constraint", "found": len(flag)}))
+    return obs
+  fl = flag[0]
+  missed = []
+  is_nnz = lambda a: a == "efc_nnz" or (a.startswith("tmp:") and ".efc_nnz@" in a)
+  nb = 0
+  for e in ev:
+    if e is fl or not any(is_nnz(a) for a in e.binding.values()) or e.kernel == first.kernel:
+      continue
+    nb += 1
+    need = _atoms(e) | {("m.is_sparse", True)}
+    if not _covers(need, [_atoms(fl)]):
+      missed.append(f"{e.kernel}@{e.lineno}: {sorted(_atoms(e))[:4]} does not imply {sorted(_atoms(fl))[:4]}")
+  obs.append(Result(oid="make_constraint#nnz_overflow.guard", status="discharged" if not missed else "violated", kind="host-order", func=mk.key, backend="host-flow analysis (propositional cover, z3)", meta={"function": mk.key, "goal": "whenever a sparse row builder is launched, the nnz-overflow flagging launch is reached as well (no early return / extra condition in between)", "missed": missed[:5], "builders": nb}))
+  obs.append(Result(oid="make_constraint#nnz_overflow.builders_found", status="discharged" if nb >= 5 else "crash", reason="no sparse row builder launches found in make_constraint", kind="host-order", func=mk.key, backend="host-flow analysis", meta={"function": mk.key, "goal": "the host-flow analysis sees the sparse row builders", "builders": nb}))
   return obs
 
 
